@@ -160,6 +160,8 @@ def multisec_surface_dict(ms):
 
         _, secs = mg.generate_mesh(s)
         s["meshes"] = [np.array(m) for m in secs]
+        for m, off in zip(s["meshes"], ms.get("offsets") or []):
+            m += np.array(off, float)  # each section in a frame of its own (the unification aligns the leading edges)
         for k in ("taper", "span", "sweep", "root_chord", "nx", "ny"):
             s.pop(k)
     return s
